@@ -2,7 +2,6 @@
   C02 — helper lemmas, part 2: authorization-code flow (authorize response, token request).
 -/
 import NutsProofs.Lemmas.C02
-set_option maxHeartbeats 400000
 
 namespace Nuts.C02
 
